@@ -647,7 +647,11 @@ func runContext(pl *plan, k ctxSpec) (res result) {
 // runSibling delivers both sides of a rule on one chain: the invalid sibling
 // must not influence the valid one (and vice versa).  past-first: after "past"
 // the tip is the parent, after "at" the tip is "at".  at-first: the tip stays.
-func runSibling(at, past *plan, pastFirst bool, cache uint64) (res result, who string) {
+//
+// orphans: both candidates arrive before their common parent (two orphans
+// waiting for the same block, in either order), then the parent: the valid one
+// must end up connected whatever happens to its sibling.
+func runSibling(at, past *plan, pastFirst, orphans bool, cache uint64) (res result, who string) {
 	a, p := at.cs, past.cs
 	defer func() {
 		if r := recover(); r != nil {
@@ -661,10 +665,43 @@ func runSibling(at, past *plan, pastFirst bool, cache uint64) (res result, who s
 	}
 	defer ch.Destroy()
 	d := &driver{ch: ch, res: &res}
+	P := a.parent()
+	if orphans {
+		base := a.base()
+		for _, b := range base[:len(base)-1] {
+			d.valid(b, true)
+		}
+		if base[len(base)-1].Hash != P.Hash {
+			res.Fail = "harness: the parent is not the last base block"
+			return
+		}
+		order := []*Case{a, p}
+		who = "at"
+		if pastFirst {
+			order = []*Case{p, a}
+			who = "past"
+		}
+		for _, c := range order {
+			if res.Fail != "" {
+				return
+			}
+			_, orphan, err := d.any(c.Cand, c.InMemory)
+			if c == a && (err != nil || !orphan) {
+				d.failf("valid candidate delivered before its parent: orphan=%v err=%v", orphan, err)
+			}
+		}
+		if res.Fail == "" {
+			// btcd reports an invalid orphan's error from the parent's call; only
+			// the resulting chain matters
+			who = "parent"
+			d.any(P, false)
+			d.settle(a, a.Cand, true, true)
+		}
+		return
+	}
 	for _, b := range a.base() {
 		d.valid(b, true)
 	}
-	P := a.parent()
 	if pastFirst {
 		who = "past"
 		if res.Fail == "" {
